@@ -213,6 +213,8 @@ private def downStr : Nice.Turn.Down → String
   | .raw b => hexL b
   | .cp seq peer auth => s!"CP({seq},{peer},{b2n auth})"
   | .cb seq chan peer auth => s!"CB({seq},{hexN chan},{peer},{b2n auth})"
+  | .rcp seq => s!"RCP({seq})"
+  | .rcb seq => s!"RCB({seq})"
 
 private def turnLine (t : Nice.Turn.St) (o : Nice.Turn.Out) : String :=
   let up := joinC (o.up.map fun (src, d) => (match src with | some p => toString p | none => "s") ++ ":" ++ hexL d)
@@ -228,7 +230,7 @@ private def classifyDgram (b : Bytes) : Option (Option (Nat × Bytes)) :=
 def turnStep (st : SockSt) (ws : List String) : SockSt × String :=
   match ws with
   | ["new", c, rel] =>
-    let c? : Option Nice.Turn.Compat := match c with | "draft9" => some .draft9 | "rfc5766" => some .rfc5766 | _ => none
+    let c? : Option Nice.Turn.Compat := match c with | "draft9" => some .draft9 | "rfc5766" => some .rfc5766 | "google" => some .google | _ => none
     match c?, rel with
     | some c, "0" =>
       let t : Nice.Turn.St := { compat := c, peers := turnPeers }
@@ -253,6 +255,10 @@ def turnStep (st : SockSt) (ws : List String) : SockSt × String :=
           | some b => fin (Nice.Turn.recvPlain t b.toList (some pi))
           | none => (st, "bad-op")
         | _, _ => (st, "bad-op")
+      | ["advance", ms] =>
+        match ms.toNat? with
+        | some ms => fin (Nice.Turn.advance t ms)
+        | none => (st, "bad-op")
       | ["setpeer", p] =>
         match p.toNat? with
         | some pi => if pi > 3 then (st, "bad-op") else fin (Nice.Turn.setPeer t pi)
@@ -260,6 +266,8 @@ def turnStep (st : SockSt) (ws : List String) : SockSt × String :=
       | ["dgram", h] =>
         match parseHex h with
         | some b =>
+          -- GOOGLE: only datagrams the RFC 3489 agent cannot take for a message are covered
+          if t.compat == .google && !(b.size < 20 || (b.getD 0 0).toNat ≥ 0x40) then (st, "unmodelled") else
           match classifyDgram b.toList with
           | some none => fin (Nice.Turn.recvPlain t b.toList none)
           | some (some (peer, data)) => fin (Nice.Turn.recvDataIndication t peer data)
@@ -270,7 +278,8 @@ def turnStep (st : SockSt) (ws : List String) : SockSt × String :=
           | "ok" => some .ok | "e400" => some .e400 | "e401" => some .e401 | "e438" => some .e438 | "e403" => some .e403 | _ => none
         match seq.toNat?, c? with
         | some seq, some c =>
-          if m == "cp" then
+          if t.compat == .google then (st, "bad-op")
+          else if m == "cp" then
             if seq < t.cpReqs.length then fin (Nice.Turn.replyCp t seq c) else (st, "bad-op")
           else if m == "cb" then
             if seq < t.cbReqs.length then fin (Nice.Turn.replyCb t seq c) else (st, "bad-op")
